@@ -4,7 +4,9 @@
  *   root <dir>          snapshot root that "hide" paths are relative to
  *   stash <dir>         empty directory on the same filesystem receiving hidden paths
  *   hide <relpath>      rename(<root>/<relpath>, <stash>/<n>): the path disappears from the snapshot
- *   unhide              every hidden path is put back (reverse order)
+ *   put <relpath> <hexbytes|->   (re)place a regular file (parents created), symlink <relpath> <target> likewise
+ *   unhide              every hidden path is put back, every created one removed (reverse order)
+ *   components <flags> <name>    hwloc_topology_set_components;   pid <n>  hwloc_topology_set_pid;   kinds   CPU kinds through the public API
  *   xmlrt               export the loaded topology to an XML buffer, reload it into a second topology
  *                       carrying the same flags and type filters, print "xmlrt export=<rc> load=<rc>",
  *                       then (if loaded) its dump and "check2 ok|abort"
@@ -24,7 +26,7 @@
 #define HWV_WATCHDOG 120
 #endif
 
-struct hidden { char *from; char *to; };
+struct hidden { char *from; char *to; };   /* to == NULL: <from> was created by put/symlink, undo = remove it */
 static struct hidden *hid; static unsigned nhid, caphid;
 static char rootdir[PATH_MAX], stashdir[PATH_MAX];
 static unsigned stashctr;
@@ -33,10 +35,45 @@ static void do_unhide(void)
 {
   while (nhid) {
     struct hidden *h = &hid[--nhid];
-    if (rename(h->to, h->from) < 0) printf("unhide-failed %s\n", h->from);
+    if (!h->to) { if (unlink(h->from) < 0 && rmdir(h->from) < 0) printf("unhide-failed %s\n", h->from); }
+    else if (rename(h->to, h->from) < 0) printf("unhide-failed %s\n", h->from);
     free(h->from); free(h->to);
   }
 }
+
+static void journal(const char *from, const char *to)
+{
+  if (nhid == caphid) { caphid = caphid ? 2 * caphid : 64; hid = realloc(hid, caphid * sizeof(*hid)); }
+  hid[nhid].from = strdup(from); hid[nhid].to = to ? strdup(to) : NULL; nhid++;
+}
+
+/* moves an existing <root>/<rel> to the stash; 0 if there was nothing */
+static int stash_away(const char *rel)
+{
+  char from[PATH_MAX], to[PATH_MAX]; struct stat st;
+  snprintf(from, sizeof(from), "%s/%s", rootdir, rel);
+  if (lstat(from, &st) < 0) return 0;
+  snprintf(to, sizeof(to), "%s/h%u", stashdir, stashctr++);
+  if (rename(from, to) < 0) return -1;
+  journal(from, to);
+  return 1;
+}
+
+/* mkdir -p of the parent directories of <root>/<rel> (each created directory is journaled) */
+static int make_parents(const char *rel)
+{
+  char path[PATH_MAX]; size_t base; char *p; struct stat st;
+  snprintf(path, sizeof(path), "%s/%s", rootdir, rel);
+  base = strlen(rootdir) + 1;
+  for (p = path + base; (p = strchr(p, '/')) != NULL; p++) {
+    *p = 0;
+    if (stat(path, &st) < 0) { if (mkdir(path, 0755) < 0) return -1; journal(path, NULL); }
+    *p = '/';
+  }
+  return 0;
+}
+
+static int hexv(int c) { return c >= '0' && c <= '9' ? c - '0' : c >= 'a' && c <= 'f' ? c - 'a' + 10 : c >= 'A' && c <= 'F' ? c - 'A' + 10 : 0; }
 
 /* hwloc_topology_check() asserts: run it in a child; on abort the text of the failed assertion
  * (stderr of the child) is kept in check_msg, reduced to [A-Za-z0-9_>!.-] */
@@ -123,16 +160,31 @@ int main(void)
     } else if (!strncmp(line, "stash ", 6)) {
       snprintf(stashdir, sizeof(stashdir), "%s", line + 6);
     } else if (!strncmp(line, "hide ", 5)) {
-      char from[PATH_MAX], to[PATH_MAX]; struct stat st;
-      snprintf(from, sizeof(from), "%s/%s", rootdir, line + 5);
-      snprintf(to, sizeof(to), "%s/h%u", stashdir, stashctr++);
-      if (lstat(from, &st) < 0) printf("hide absent %s\n", line + 5);   /* inside an already hidden directory */
-      else if (rename(from, to) < 0) printf("hide failed %s errno=%d\n", line + 5, errno);
-      else {
-        if (nhid == caphid) { caphid = caphid ? 2 * caphid : 64; hid = realloc(hid, caphid * sizeof(*hid)); }
-        hid[nhid].from = strdup(from); hid[nhid].to = strdup(to); nhid++;
-        printf("hide ok\n");
+      int r = stash_away(line + 5);
+      if (r == 0) printf("hide absent %s\n", line + 5);   /* inside an already hidden directory */
+      else if (r < 0) printf("hide failed %s errno=%d\n", line + 5, errno);
+      else printf("hide ok\n");
+    } else if (!strncmp(line, "put ", 4) || !strncmp(line, "symlink ", 8)) {
+      /* put <relpath> <hexbytes|->  /  symlink <relpath> <target>: (re)place a file in the snapshot, undone by unhide */
+      int islink = line[0] == 's';
+      char *rel = line + (islink ? 8 : 4), *arg = strchr(rel, ' '), full[PATH_MAX]; int ok = 0;
+      if (arg) {
+        *arg++ = 0;
+        snprintf(full, sizeof(full), "%s/%s", rootdir, rel);
+        if (stash_away(rel) >= 0 && make_parents(rel) == 0) {
+          if (islink) ok = symlink(arg, full) == 0;
+          else {
+            FILE *f = fopen(full, "wb");
+            if (f) {
+              size_t n = strcmp(arg, "-") ? strlen(arg) / 2 : 0, i;
+              for (i = 0; i < n; i++) fputc(hexv(arg[2*i]) * 16 + hexv(arg[2*i+1]), f);
+              ok = fclose(f) == 0;
+            }
+          }
+          if (ok) journal(full, NULL);
+        }
       }
+      printf(ok ? "put ok\n" : "put failed %s errno=%d\n", rel, errno);
     } else if (!strcmp(line, "unhide")) {
       do_unhide();
       printf("unhide\n");
@@ -149,6 +201,34 @@ int main(void)
       if (!loaded || check_child(t)) printf("check ok\n"); else printf("check abort %s\n", check_msg);
     } else if (!strcmp(line, "xmlrt")) {
       if (loaded) xml_roundtrip(t); else printf("xmlrt skipped\n");
+    } else if (!strncmp(line, "components ", 11) && t) {
+      /* components <flags> <name>: hwloc_topology_set_components */
+      char *end; unsigned long fl = strtoul(line + 11, &end, 0); int rc;
+      while (*end == ' ') end++;
+      errno = 0;
+      rc = hwloc_topology_set_components(t, fl, end);
+      printf("components rc=%d errno=%s\n", rc, rc < 0 ? hwv_errno_class(errno) : "0");
+    } else if (!strncmp(line, "pid ", 4) && t) {
+      int rc; errno = 0;
+      rc = hwloc_topology_set_pid(t, (hwloc_pid_t)atoi(line + 4));
+      printf("pid rc=%d errno=%s\n", rc, rc < 0 ? hwv_errno_class(errno) : "0");
+    } else if (!strcmp(line, "kinds")) {
+      /* CPU kinds through the public API: count, and per kind the weight of its cpuset and its infos */
+      if (!loaded) printf("kinds -\n");
+      else {
+        int n = hwloc_cpukinds_get_nr(t, 0), k;
+        printf("kinds n=%d", n);
+        for (k = 0; k < n; k++) {
+          hwloc_bitmap_t b = hwloc_bitmap_alloc(); int eff = -2; struct hwloc_infos_s *infos = NULL; unsigned j;
+          if (hwloc_cpukinds_get_info(t, (unsigned)k, b, &eff, &infos, 0) == 0) {
+            printf(" [w=%d eff=%d", hwloc_bitmap_weight(b), eff);
+            for (j = 0; infos && j < infos->count; j++) { printf(" "); hwv_pstr(stdout, infos->array[j].name); printf("="); hwv_pstr(stdout, infos->array[j].value); }
+            printf("]");
+          }
+          hwloc_bitmap_free(b);
+        }
+        printf("\n");
+      }
     } else if (!strcmp(line, "destroy")) {
       if (t) hwloc_topology_destroy(t);
       t = NULL; loaded = 0;
